@@ -427,6 +427,19 @@ def o_C09(ctx):
             r = expected_events(c)
             if not r["ok"] and tuple(r["err"]) == (5,) and got != ("err", 5):
                 v.append(([c.id], "%s: Break at breakable callback #%d must win over what follows, got %s" % (c.entry, i, "Ok" if got == ("ok",) else err_name(got[1:]))))
+    # every other case run under a breaking policy (truncated inputs, small strings): judged by the reference
+    for s, c, t in parser_cases(ctx, ("struct", "small")):
+        if c.brk < 0 or c.entry not in VISIT or (".b" in c.id):
+            continue
+        got = res_of(t)
+        if got[0] in ("panic", "missing"):
+            continue
+        r = expected_events(c)
+        if not r["ok"] and tuple(r["err"]) == (5,) and got != ("err", 5):
+            v.append(([c.id], "%s: Break at breakable callback #%d must win over what follows (input of %d bytes), got %s" % (
+                c.entry, c.brk, len(c.inp), "Ok" if got == ("ok",) else err_name(got[1:]))))
+        if got == ("err", 5) and not (not r["ok"] and tuple(r["err"]) == (5,)):
+            v.append(([c.id], "%s: VisitBreak reported although the policy (break at #%d) never fires on this input" % (c.entry, c.brk)))
     return v
 
 
@@ -520,6 +533,9 @@ def o_C17(ctx):
                        ("x_iter_ended", "the iterator yields again after returning None")):
             if first(t, k) == "0":
                 v.append(([c.id], msg))
+        ad = first(t, "x_adapt")
+        if ad is not None and ad != "ok":
+            v.append(([c.id], "advancing by a provided Iterator method disagrees with repeated next() (%s: method:next()-calls-before[:argument:what])" % ad))
         if first(t, "x_into_len0") is not None and int(first(t, "x_into_len0")) != n:
             v.append(([c.id], "IntoIterator len() = %s for %d outputs" % (first(t, "x_into_len0"), n)))
     return v
